@@ -98,7 +98,7 @@ type AxiomDef struct {
 	Props   []string
 	Hints   []string
 	Trigger [][]Expr
-	Manual  bool // never asserted with a quantifier: only the instances named by "use" clauses
+	Manual  bool     // never asserted with a quantifier: only the instances named by "use" clauses
 	Uses    []Clause // lemma proof: ground instances of earlier axioms / lemmas (or of the lemma itself, see Induct)
 	Induct  *Clause  // well-founded induction: instances of the lemma itself may be used where this measure is smaller
 }
